@@ -352,6 +352,33 @@ def inverse_rule(rep, prog, full):
             def generic(op, a_, b_, tested=tested, prefix=prefix, taken=taken, pairdec=pairdec):
                 if op == "Gt" and isinstance(b_, tuple) and b_[0] == "f" and 0 < b_[1] < 1e-6:
                     return True                      # the debug assertion |det| > EPSILON: the matrix is invertible
+
+                def signed_entry(v):
+                    return isinstance(v, tuple) and v[0] in ("sym", "symop") and not is_mag(v)
+
+                def as_mag(v):
+                    """a SIGNED entry compared with magnitudes (a pivot loop that keeps the signed value of its best candidate): its sign is
+                    one more (forked) decision; non-negative it is its own magnitude, negative it is below every magnitude"""
+                    key_ = ("sign", repr(v))
+                    if key_ not in pairdec:
+                        i_ = len(taken)
+                        k_ = prefix[i_] if i_ < len(prefix) else 0
+                        if i_ >= len(prefix):
+                            pending.append(tuple(taken) + (1,))
+                        taken.append(k_)
+                        pairdec[key_] = k_
+                    return ("symop", "abs", v, None) if pairdec[key_] == 0 else None
+                if (signed_entry(a_) and (is_mag(b_) or signed_entry(b_))) or (signed_entry(b_) and is_mag(a_)):
+                    ma = as_mag(a_) if signed_entry(a_) else a_
+                    mb = as_mag(b_) if signed_entry(b_) else b_
+                    if ma is None or mb is None:
+                        if ma is None and mb is None:
+                            # both negative: the order of the magnitudes, reversed
+                            r_ = generic(op, ("symop", "abs", b_, None), ("symop", "abs", a_, None))
+                            return r_
+                        rel = "lt" if ma is None else "gt"
+                        return {"Lt": rel == "lt", "Gt": rel == "gt", "Eq": False, "Ne": True, "Le": rel == "lt", "Ge": rel == "gt"}[op]
+                    a_, b_ = ma, mb
                 if is_mag(a_) and is_mag(b_) and not (a_ == zero and b_ == zero):
                     # a pivot search written as an explicit loop compares magnitudes pairwise: each unordered pair gets one
                     # (forked) strict order, a zero entry is the smallest
